@@ -62,6 +62,10 @@ def run_case(case, rng):
         sp = G.random_spec(rng, "proper", n_max=n_max, gamma=g)
     else:
         sp = G.random_spec(rng, fam, n_max=n_max)
+    if fam in ("any", "proper") and rng.random() < 0.08:
+        # discounted, but only just: a discount rate within 1e-5 of 1 is still a discount rate (finite values everywhere)
+        sp.gamma = rng.choice([1 - 1e-6, 1 - 1e-7, 0.99999])
+        sp.meta["discount_just_below_one"] = True
     corridor = rng.random() < 0.08
     if corridor:
         fam = "corridor"
